@@ -209,6 +209,15 @@ static const LDef LINES[] = {
   {"nearEquator", 0, 20, 89.9, 0, 0},          // crosses the equator at 0.1 deg
   {"nearPole", 60, -120, 1e-5, 0, 0},          // passes a few metres from the pole
   {"genE", 75, 33, -70, 0, 0},
+  {"gen30", 0, 0, 30, 0, 0},
+  {"gen60N", 60, 45, 60, 0, 0},
+  {"polarW", -80, -45, -100, 0, 0},
+  {"eqish", 5, 130, 95, 0, 0},
+  {"steep", -20, 170, 10, 0, 0},
+  {"genS", -55, -60, 140, 0, 0},
+  {"lat45", 45, -135, -45, 0, 0},
+  {"meridian-100", 10, -100, 180, 0, 0},       // meets meridian 10E exactly at the poles
+  {"nearMeridian10", 0, 10.0000001, 0, 0, 0},  // 1 cm east of meridian 10E at the equator: crossing angle 1.7e-9 rad at the poles
 };
 static const int NLALL = sizeof(LINES) / sizeof(LINES[0]);
 static int NL = 12;
@@ -219,8 +228,11 @@ static const PDef ENDS[] = {
   {"E1", 0, -80}, {"E2", 0, 0}, {"E3", 0, 60}, {"E4", 0, 50},
   {"M1", 40, 10}, {"M2", -30, 10}, {"M3", 5, 10},
   {"G1", 20, -30}, {"G2", 50, 70}, {"G3", -45, 120},
+  // thorough tier only
+  {"G4", -60, -120}, {"G5", 10, 179}, {"G6", 75, -165}, {"G7", 89.9, 0},
 };
-static const int NE = sizeof(ENDS) / sizeof(ENDS[0]);
+static const int NEALL = sizeof(ENDS) / sizeof(ENDS[0]);
+static int NE = 10;
 
 // ------------------------------------------------------------------ coincidence lines of constructed-coincident pairs
 struct CoLine {
@@ -241,7 +253,7 @@ struct Judge {
   double RES;                  // intersection residual tolerance (before the multi-circuit factor)
   std::string where;
   mc::Fields F;
-  void failk(const char* kind, const std::string& msg) { F[0].second = kind; ctx.count(std::string("failclass.") + kind + "." + E.name); ctx.fail(where + " " + kind, msg, F); }
+  void failk(const char* kind, const std::string& msg) { F[0].second = kind; { std::string rel, pr; for (auto& f : F) { if (f.first == "relation") rel = "." + f.second; if (f.first == "pair" && getenv("C17_DEBUG")) pr = "." + f.second; } ctx.count(std::string("failclass.") + kind + "." + E.name + rel + pr); } ctx.fail(where + " " + kind, msg, F); }
   double restol(double x, double y) const { return RES * std::max(1.0, std::max(std::fabs(x), std::fabs(y)) / (2e7 * sc)); }
   // (i) soundness: independent evaluation of both lines; returns residual, sets crossing sine
   double residual(const GeodesicLine& ix, const GeodesicLine& iy, double x, double y, double& sinth) const {
@@ -249,9 +261,19 @@ struct Judge {
     double c = dot(tX, tY); sinth = std::sqrt(std::max(0.0, 1 - c * c));
     return nrm(sub(PX, PY));
   }
-  bool check_point(const char* api, const GeodesicLine& ix, const GeodesicLine& iy, double x, double y, double& sinth) {
+  bool check_point(const char* api, const GeodesicLine& ix, const GeodesicLine& iy, double x, double y, double& sinth, const struct CoLine* CL = nullptr) {
     if (!(std::isfinite(x) && std::isfinite(y))) { failk("not-finite", std::string(api) + " returned (" + fmt(x) + "," + fmt(y) + ")"); sinth = 1; return false; }
     double r = residual(ix, iy, x, y, sinth), tol = restol(x, y);
+    if (CL && on_line(*CL, x, y)) {
+      // a point of the line along which the two geodesics coincide: X(x) and Y(y) both lie on the common curve whatever
+      // x and y are; the residual is the ALONG-LINE mismatch of the two displacements.  The library stops iterating as
+      // soon as it recognises coincidence, so this mismatch is not driven to the Newton limit; documentation gives no
+      // figure.  Calibrated (DESIGN Appendix B): COINC_CAL x eps x max(|x|,|y|,a), 4 x the worst observed.
+      tol = coinctol(x, y);
+      ctx.worstf(std::string("ix.") + api + ".coincident_alongline_mismatch_over_tol", r / tol, [&] { return where + " (x,y)=(" + fx(x) + "," + fx(y) + ") residual " + fmt(r); });
+      if (!(r <= tol)) { failk("coincident-mismatch", std::string(api) + " returned (" + fx(x) + "," + fx(y) + ") on the coincidence line but X(x) and Y(y) are " + fmt(r) + " m apart along it (tol " + fmt(tol) + ")"); return false; }
+      return true;
+    }
     ctx.worstf(std::string("ix.") + api + ".residual_over_tol", r / tol, [&] { return where + " (x,y)=(" + fx(x) + "," + fx(y) + ") residual " + fmt(r); });
     if (!(r <= tol)) { failk("not-an-intersection", std::string(api) + " returned (" + fx(x) + "," + fx(y) + ") but X(x) and Y(y) are " + fmt(r) + " m apart (tol " + fmt(tol) + ")"); return false; }
     return true;
@@ -261,15 +283,19 @@ struct Judge {
   // non-closed geodesic can still cross itself transversally on an ellipsoid: there c = 0 is right.  Lines constructed
   // distinct have c = 0 everywhere (also the 1e-9 deg pair).
   int expect_c(const struct CoLine& L, double x, double y) const;
+  bool on_line(const struct CoLine& L, double x, double y) const;
+  static constexpr double COINC_CAL = 432;     // worst observed 107 (401 nm at |x| = 1.68e7 m: WGS84, genB with itself, p0 = (2e7,0))
+  double coinctol(double x, double y) const { return std::max(restol(x, y), COINC_CAL * std::numeric_limits<double>::epsilon() * std::max(std::max(std::fabs(x), std::fabs(y)), E.a)); }
   double postol(double sinth, double x, double y) const { return 2 * restol(x, y) / std::max(sinth, 1e-300) + restol(x, y); }
 };
 
+bool Judge::on_line(const CoLine& L, double x, double y) const { return L.on(x, y, 1e-3 * sc + 4 * restol(x, y)); }
 int Judge::expect_c(const CoLine& L, double x, double y) const { return L.on(x, y, 1e-3 * sc + 4 * restol(x, y)) ? L.c : 0; }
 
 int main(int argc, char** argv) {
   Ctx ctx(argc, argv);
   const bool T = ctx.thorough();
-  NL = T ? NLALL : 12;
+  NL = T ? NLALL : 12; NE = T ? NEALL : 10;
   const double aW = Constants::WGS84_a(), fW = Constants::WGS84_f();
   std::vector<Ell> ells = {{"sphere", aW, 0, false, 15e-9}, {"WGS84", aW, fW, false, 15e-9}};
   if (T) {
@@ -282,8 +308,12 @@ int main(int argc, char** argv) {
   { std::string s; for (int i = 0; i < NL; ++i) s += std::string(i ? "; " : "") + LINES[i].name + "=(" + fmt(LINES[i].lat) + "," + fmt(LINES[i].lon) + "," + fmt(LINES[i].azi) + ")";
     ctx.bound("ix.lines", fmti(NL) + " lines, all " + fmti(NL * NL) + " ordered pairs incl. self pairs: " + s); }
   std::vector<std::pair<double, double>> P0 = {{0, 0}, {1e7, -2e7}};
-  if (T) P0.push_back({-2.5e7, -4e6});
-  ctx.bound("ix.p0", T ? "(0,0), (1e7,-2e7), (-2.5e7,-4e6) m x a/6378137" : "(0,0), (1e7,-2e7) m");
+  {
+    for (double u : {-2e7, -1e7, 0.0, 1e7, 2e7}) for (double v : {-2e7, -1e7, 0.0, 1e7, 2e7})
+      if (!((u == 0 && v == 0) || (u == 1e7 && v == -2e7))) P0.push_back({u, v});
+    P0.push_back({-2.5e7, -4e6});
+  }
+  ctx.bound("ix.p0", "the 5 x 5 grid {-2e7,-1e7,0,1e7,2e7}^2 and (-2.5e7,-4e6) m x a/6378137 (26 offsets)");
   const std::vector<double> MAXD = {1e5, 2.5e7, 6e7};
   ctx.bound("ix.all.maxdist", "{1e5, 2.5e7, 6e7} m");
   ctx.bound("ix.scan", "ellipsoid oracle: cells h = 2.5e5 m (lines) / 2e5 m (segments) over the whole L1 diamond; exclusion |X(xc)-Y(yc)| > h, else Gauss-Newton; roots verified by residual, crossing angle > 1e-6");
@@ -315,7 +345,8 @@ int main(int argc, char** argv) {
     ScanStat st; uint64_t sphere_lattice_pts = 0, sphere_lattice_found = 0, all_unmatched_returned = 0, all_illconditioned_returned = 0, calls = 0;
     for (const Ell& E : ells) {
       const double sc = E.a / aW;
-      const double hline = 2.5e5 * sc; const int Kline = 400;    // |x| <= 1e8: covers |p0| + maxdist + margin
+      const double hline = 2.5e5 * sc; const int Kline = 410;    // |x| <= 1.025e8: covers |p0|_1 + maxdist + margin
+      const double rhobig = 1e8 * sc;                            // one root set per pair: L1 diamond about the origin, >= max |p0|_1 + max maxdist
       // per ellipsoid objects are built lazily (only if this shard owns a unit)
       Geodesic* g = nullptr; Intersect* in = nullptr; std::vector<LineCache> cache; std::vector<GeodesicLine> lines;
       for (int i = 0; i < NL; ++i) for (int j = 0; j < NL; ++j) {
@@ -330,7 +361,8 @@ int main(int argc, char** argv) {
         const GeodesicLine lx = g->Line(A.lat, A.lon, A.azi, Intersect::LineCaps), ly = g->Line(B.lat, B.lon, B.azi, Intersect::LineCaps);
         const GeodesicLine &ix = lines[i], &iy = lines[j];
         Judge J{ctx, E, *g, sc, 20e-9 * sc * (E.gdoc / 15e-9)};
-        J.F = {{"kind", ""}, {"ellipsoid", E.name}, {"pair", std::string(A.name) + "/" + B.name}, {"coincident", fmti(ec)}};
+        J.F = {{"kind", ""}, {"ellipsoid", E.name}, {"pair", std::string(A.name) + "/" + B.name}, {"coincident", fmti(ec)},
+               {"relation", i == j ? "identical" : (ec ? "coincident" : "distinct")}, {"c", ""}};
         SphPair S; if (E.f == 0) S = sph_pair(sph_line(A.lat, A.lon, A.azi), sph_line(B.lat, B.lon, B.azi), (Q)E.a);
         if (E.f == 0 && S.coincident != (ec != 0)) { fprintf(stderr, "oracle self-check: coincidence of %s/%s\n", A.name, B.name); return 2; }
         CoLine CL; CL.c = ec;
@@ -339,27 +371,28 @@ int main(int argc, char** argv) {
           if (E.f == 0) { CL.b = (ld)S.b; CL.pers = {2 * LPI * E.a}; if (S.c != ec) { fprintf(stderr, "oracle self-check: orientation of %s/%s\n", A.name, B.name); return 2; } }
           else if (A.group == 1) { CL.b = B.dir * (ld)E.a * (A.lon - B.lon) * LPI / 180; CL.pers = {2 * LPI * E.a}; }          // equator (closed)
           else if (A.group == 2) { CL.b = B.dir * (merid(*g, A.lat, A.lon) - merid(*g, B.lat, B.lon)); CL.pers = {4 * (ld)qm}; }  // meridian 10E (closed)
-          else { CL.b = 0; CL.pers = {0}; }                                                               // same start point, not closed
+          else { CL.b = 0; CL.pers = {0};                                                                 // same start point
+            if (A.azi == 0 || std::fabs(A.azi) == 180) CL.pers.push_back(4 * (ld)qm);                     // a meridian is closed
+            if (A.lat == 0 && std::fabs(A.azi) == 90) CL.pers.push_back(2 * LPI * E.a); }
+        }
+        // ---- reference root set within the big diamond (once per pair)
+        std::vector<Root> roots; bool complete = false, have = false;
+        if (ec == 0) {
+          std::vector<Root> sroots;
+          if (E.f == 0) { roots = sph_lattice(S, 0, 0, rhobig + 1e3); complete = true; have = true; }
+          // scan (the oracle on ellipsoids; a self-check of the scan on the sphere)
+          if ((double)(E.f == 0 ? (double)S.sinth : 1.0) > 1e-6) {
+            sroots = scan_roots(E, cache[i], cache[j], 0, 0, rhobig, 4 * J.restol(1e8 * sc, 0), st);
+            if (E.f == 0) {
+              for (auto& r : roots) { if (l1(r.x, r.y, 0, 0) > rhobig) continue; ++sphere_lattice_pts;
+                for (auto& s : sroots) if (l1(r.x, r.y, s.x, s.y) <= 1e-3) { ++sphere_lattice_found; break; } }
+            } else { roots = sroots; have = true; }
+          }
         }
         for (auto p0s : P0) {
           const double p0x = p0s.first * sc, p0y = p0s.second * sc;
           const Intersect::Point p0(p0x, p0y);
           const std::string base = std::string(E.name) + " X=" + A.name + " Y=" + B.name + " p0=(" + fmt(p0x) + "," + fmt(p0y) + ")";
-          // ---- reference root set within the largest diamond
-          const double rho = 6e7 * sc;
-          std::vector<Root> roots; bool complete = false, have = false;
-          if (ec == 0) {
-            std::vector<Root> sroots;
-            if (E.f == 0) { roots = sph_lattice(S, p0x, p0y, rho + 1e3); complete = true; have = true; }
-            // scan (the oracle on ellipsoids; a self-check of the scan on the sphere)
-            if ((double)(E.f == 0 ? (double)S.sinth : 1.0) > 1e-6) {
-              sroots = scan_roots(E, cache[i], cache[j], p0x, p0y, rho, 4 * J.restol(1e8 * sc, 0), st);
-              if (E.f == 0) {
-                for (auto& r : roots) { if (l1(r.x, r.y, p0x, p0y) > rho) continue; ++sphere_lattice_pts;
-                  for (auto& s : sroots) if (l1(r.x, r.y, s.x, s.y) <= 1e-3) { ++sphere_lattice_found; break; } }
-              } else { roots = sroots; have = true; }
-            }
-          }
           // ---- Closest
           {
             Ctx::Case cs(ctx); ++calls;
@@ -372,17 +405,18 @@ int main(int argc, char** argv) {
             if (!mc::same_bits(p.first, p2.first) || !mc::same_bits(p.second, p2.second) || c1 != c2 || !mc::same_bits(p.first, p3.first) || !mc::same_bits(p.second, p3.second))
               J.failk("overloads-differ", "Closest(lat,lon,azi,...) / Closest(lines) / without c give different results");
             double sinth;
-            if (J.check_point("closest", ix, iy, p.first, p.second, sinth)) {
+            if (J.check_point("closest", ix, iy, p.first, p.second, sinth, &CL)) {
               const int lc = J.expect_c(CL, p.first, p.second);
+              J.F[5].second = fmti(c1);
               if (c1 != lc) J.failk("coincidence-indicator", "c = " + fmti(c1) + " at (" + fx(p.first) + "," + fx(p.second) + "), expected " + fmti(lc) + " (lines constructed with c = " + fmti(ec) + ")");
               if (E.f == 0 && ec == 0) sinth = (double)S.sinth;                        // exact crossing angle on the sphere
               const double dlib = std::fabs(p.first - p0x) + std::fabs(p.second - p0y);
               if (ec != 0 && E.f == 0) {
                 // coincident great circles: the L1 distance to the nearest coincidence line is the minimum
                 ld dmin = sph_coinc_mindist(S, p0x, p0y);
-                double tol = 4 * J.restol(p.first, p.second);
+                double tol = 4 * J.coinctol(p.first, p.second);
                 ctx.worstf("ix.closest.coincident_dist_err_over_tol", std::fabs(dlib - (double)dmin) / tol, [&] { return J.where; });
-                if (!(std::fabs(dlib - (double)dmin) <= tol)) J.failk("closest-not-minimal", "coincident lines: returned L1 distance " + fx(dlib) + ", minimal " + fmt((double)dmin));
+                if (!(std::fabs(dlib - (double)dmin) <= tol)) J.failk("coincident-closest-not-minimal", "coincident lines: returned L1 distance " + fx(dlib) + ", minimal " + fmt((double)dmin));
               } else if (have) {
                 const double pt = J.postol(sinth, p.first, p.second);
                 ld dmin = 1e30L, dmatch = 1e30L; const Root* rmin = nullptr;
@@ -417,12 +451,13 @@ int main(int argc, char** argv) {
             bool ok = true; double prev = -1;
             std::vector<double> sth(v.size(), 1);
             for (size_t k = 0; k < v.size(); ++k) {
-              if (!J.check_point("all", ix, iy, v[k].first, v[k].second, sth[k])) { ok = false; continue; }
+              if (!J.check_point("all", ix, iy, v[k].first, v[k].second, sth[k], &CL)) { ok = false; continue; }
               double d = std::fabs(v[k].first - p0x) + std::fabs(v[k].second - p0y);
               if (!(d <= md * (1 + 4e-16) + 1e-9)) J.failk("all-beyond-maxdist", "point " + fmti(k) + " at L1 distance " + fx(d) + " > maxdist");
               if (d < prev) J.failk("all-not-sorted", "point " + fmti(k) + " at distance " + fx(d) + " after a point at " + fx(prev));
               prev = d;
               { const int lc = J.expect_c(CL, v[k].first, v[k].second);
+                J.F[5].second = k < cv.size() ? fmti(cv[k]) : "";
                 if (k < cv.size() && cv[k] != lc) J.failk("coincidence-indicator", "c[" + fmti(k) + "] = " + fmti(cv[k]) + ", expected " + fmti(lc) + " (lines constructed with c = " + fmti(ec) + ")"); }
               if (E.f == 0 && ec == 0) sth[k] = (double)S.sinth;
               for (size_t m = 0; m < k; ++m)
@@ -433,7 +468,7 @@ int main(int argc, char** argv) {
               // coincident lines: a continuum of intersections; documented nowhere which are listed.  Sound part only:
               // the closest one must be present when it is within maxdist
               if (E.f == 0) { ld dmin = sph_coinc_mindist(S, p0x, p0y);
-                if (dmin <= md - 1e-3 && v.empty()) J.failk("all-missed", "coincident lines at L1 distance " + fmt((double)dmin) + " <= maxdist but nothing returned"); }
+                if (dmin <= md - 1e-3 && v.empty()) J.failk("coincident-all-missed", "coincident lines at L1 distance " + fmt((double)dmin) + " <= maxdist but nothing returned"); }
               continue;
             }
             if (!have) continue;
@@ -474,9 +509,11 @@ int main(int argc, char** argv) {
   // ================================================================ Next
   ctx.sub("ix-next");
   {
-    const std::vector<PDef> starts = {{"(0,0)", 0, 0}, {"(20,-30)", 20, -30}, {"(-60,100)", -60, 100}, {"(90,0)", 90, 0}};
-    const std::vector<double> azis = {0, 35, 90, 135, 180, -145, -90, -35.5, 35 + 1e-9};
-    ctx.bound("ix-next", "start points (0,0) (20,-30) (-60,100) (90,0) x all 81 ordered pairs of azimuths {0,35,90,135,180,-145,-90,-35.5,35+1e-9}");
+    std::vector<PDef> starts = {{"(0,0)", 0, 0}, {"(20,-30)", 20, -30}, {"(-60,100)", -60, 100}, {"(90,0)", 90, 0}};
+    std::vector<double> azis = {0, 35, 90, 135, 180, -145, -90, -35.5, 35 + 1e-9};
+    if (T) { starts.push_back({"(45,45)", 45, 45}); starts.push_back({"(-5,-170)", -5, -170}); azis.push_back(60); azis.push_back(-120); azis.push_back(1); }
+    ctx.bound("ix-next", T ? "start points (0,0) (20,-30) (-60,100) (90,0) (45,45) (-5,-170) x all 144 ordered pairs of azimuths {0,35,90,135,180,-145,-90,-35.5,35+1e-9,60,-120,1}"
+                           : "start points (0,0) (20,-30) (-60,100) (90,0) x all 81 ordered pairs of azimuths {0,35,90,135,180,-145,-90,-35.5,35+1e-9}");
     ScanStat st; uint64_t calls = 0;
     for (const Ell& E : ells) for (const PDef& s0 : starts) {
       if (!ctx.take()) continue;
@@ -500,9 +537,9 @@ int main(int argc, char** argv) {
         ctx.sig(200 + (c1 + 2) * 5 + (ec + 1));
         if (!mc::same_bits(p.first, p2.first) || !mc::same_bits(p.second, p2.second) || c1 != c2) J.failk("overloads-differ", "Next(lat,lon,aziX,aziY) and Next(lines) differ");
         double sinth;
-        if (!J.check_point("next", ix, iy, p.first, p.second, sinth)) continue;
         CoLine CL; CL.c = ec; CL.b = 0;
         if (ec != 0) { double qm; g.Inverse(0, 0, 90, 0, qm); if (E.f == 0) CL.pers = {2 * LPI * E.a}; else CL.pers = {0, 2 * LPI * E.a, 4 * (ld)qm}; }
+        if (!J.check_point("next", ix, iy, p.first, p.second, sinth, &CL)) continue;
         const int lc = J.expect_c(CL, p.first, p.second);
         if (c1 != lc) J.failk("coincidence-indicator", "c = " + fmti(c1) + ", expected " + fmti(lc) + " (lines constructed with c = " + fmti(ec) + ")");
         const double dlib = std::fabs(p.first) + std::fabs(p.second);
@@ -548,9 +585,9 @@ int main(int argc, char** argv) {
     std::vector<Seg> segs;
     for (int p = 0; p < NE; ++p) for (int q = 0; q < NE; ++q) if (p != q) segs.push_back({p, q});
     { std::string s; for (int i = 0; i < NE; ++i) s += std::string(i ? " " : "") + ENDS[i].name + "=(" + fmt(ENDS[i].lat) + "," + fmt(ENDS[i].lon) + ")";
-      ctx.bound("ix-segment.endpoints", s + " (4 on the equator, 3 on meridian 10E, 3 generic)"); }
-    ctx.bound("ix-segment.pairs", T ? "all 90 x 90 ordered pairs of directed segments" : "all 90 directed segments X x the 45 segments Y with first end point index < second");
-    ScanStat st; uint64_t calls = 0, borderline = 0, crossing = 0, disjoint = 0;
+      ctx.bound("ix-segment.endpoints", s + " (4 on the equator, 3 on meridian 10E, the rest generic)"); }
+    ctx.bound("ix-segment.pairs", T ? "all 182 x 182 ordered pairs of directed segments" : "all 90 directed segments X x the 45 segments Y with first end point index < second");
+    ScanStat st; uint64_t calls = 0, borderline = 0, crossing = 0, disjoint = 0, reversed_unrecognised = 0, reversed_unrecognised_disjoint = 0;
     for (const Ell& E : ells) {
       const double sc = E.a / aW;
       Geodesic* g = nullptr; Intersect* in = nullptr;
@@ -577,12 +614,15 @@ int main(int argc, char** argv) {
           J.where = std::string("segment ") + E.name + " X=" + a1.name + "-" + a2.name + " Y=" + b1.name + "-" + b2.name;
           // constructed coincidence: both segments on the equator or both on meridian 10E
           auto fam = [](const PDef& p) { return p.name[0]; };
-          int ec = 0;
+          int ec = 0; bool soft = false;
           if (fam(a1) == fam(a2) && fam(b1) == fam(b2) && fam(a1) == fam(b1) && fam(a1) != 'G') {
             double da = fam(a1) == 'E' ? a2.lon - a1.lon : a2.lat - a1.lat, db = fam(a1) == 'E' ? b2.lon - b1.lon : b2.lat - b1.lat;
             ec = (da > 0) == (db > 0) ? 1 : -1;
           } else if (segs[i].p == segs[j].p && segs[i].q == segs[j].q) ec = 1;          // the same segment
-          else if (segs[i].p == segs[j].q && segs[i].q == segs[j].p) ec = -1;           // the same segment reversed
+          else if (segs[i].p == segs[j].q && segs[i].q == segs[j].p) { ec = -1; soft = true; }   // the same segment reversed
+          // "soft": the two lines come from two separate inverse solutions (A->B and B->A); they are the same geodesic only
+          // up to round-off (azimuths agree to ~1e-15 rad), not bitwise, so "lie on top of one another" is not decidable:
+          // c = -1 or c = 0 are both accepted and the not-recognised cases are counted.
           J.F = {{"kind", ""}, {"ellipsoid", E.name}, {"coincident", fmti(ec)}};
           int sm = -99, sm2 = -99, c1 = -9, c2 = -9;
           Intersect::Point p = in->Segment(sl[i], sl[j], sm, &c1);
@@ -590,7 +630,6 @@ int main(int argc, char** argv) {
           ctx.sig(300 + (sm + 4) * 7 + (c1 + 1));
           if (!mc::same_bits(p.first, p2.first) || !mc::same_bits(p.second, p2.second) || sm != sm2 || c1 != c2) J.failk("overloads-differ", "Segment(8 coordinates) and Segment(lines) differ");
           double sinth;
-          if (!J.check_point("segment", il[i], il[j], p.first, p.second, sinth)) continue;
           CoLine CL; CL.c = ec;
           if (ec != 0) {
             double qm; g->Inverse(0, 0, 90, 0, qm);
@@ -599,6 +638,14 @@ int main(int argc, char** argv) {
             else if (fam(a1) == 'E') { int dB = b2.lon > b1.lon ? 1 : -1; CL.b = dB * (ld)E.a * (a1.lon - b1.lon) * LPI / 180; CL.pers = {2 * LPI * E.a}; }
             else { int dB = b2.lat > b1.lat ? 1 : -1; CL.b = dB * (merid(*g, a1.lat, a1.lon) - merid(*g, b1.lat, b1.lon)); CL.pers = {4 * (ld)qm}; }
             if (E.f == 0) CL.pers.push_back(2 * LPI * E.a);
+          }
+          if (!J.check_point("segment", il[i], il[j], p.first, p.second, sinth, &CL)) continue;
+          if (soft && c1 == 0) {
+            ++reversed_unrecognised;
+            int kx = p.first < 0 ? -1 : (p.first <= sl[i].Distance() ? 0 : 1), ky = p.second < 0 ? -1 : (p.second <= sl[j].Distance() ? 0 : 1);
+            if (sm != 3 * kx + ky) J.failk("segmode-formula", "segmode = " + fmti(sm) + " inconsistent with the returned point");
+            if (sm != 0) ++reversed_unrecognised_disjoint;
+            continue;
           }
           { const int lc = J.expect_c(CL, p.first, p.second);
             if (c1 != lc) J.failk("coincidence-indicator", "c = " + fmti(c1) + ", expected " + fmti(lc) + " (segments constructed with c = " + fmti(ec) + ")"); }
@@ -650,10 +697,10 @@ int main(int argc, char** argv) {
               }
               // the returned point lies on a coincidence line
               ld off = (ld)p.second - ec * (ld)p.first; ld k = roundl((off - (ld)S.b) / per);
-              if (!(fabsl(off - ((ld)S.b + k * per)) <= 4 * J.restol(p.first, p.second))) J.failk("segment-coincident-off-line", "returned point is not on a coincidence line y = c x + b");
+              if (!(fabsl(off - ((ld)S.b + k * per)) <= 4 * J.coinctol(p.first, p.second))) J.failk("segment-coincident-off-line", "returned point is not on a coincidence line y = c x + b");
               if (overlap) { ++crossing; if (sm != 0) J.failk("segment-overlap-missed", "coincident segments overlap but segmode = " + fmti(sm) + ", returned (" + fx(p.first) + "," + fx(p.second) + ")"); }
               else if (!border) { ++disjoint; if (sm == 0) J.failk("segment-spurious-crossing", "coincident segments are disjoint but segmode = 0");
-                if (!(dlib <= (double)dm + 4 * J.restol(p.first, p.second))) J.failk("segment-not-closest", "coincident disjoint segments: L1 distance from the midpoints " + fx(dlib) + ", minimal " + fmt((double)dm)); }
+                if (!(dlib <= (double)dm + 4 * J.coinctol(p.first, p.second))) J.failk("segment-not-closest", "coincident disjoint segments: L1 distance from the midpoints " + fx(dlib) + ", minimal " + fmt((double)dm)); }
               else ++borderline;
             }
           } else if (ec == 0) {
@@ -674,6 +721,9 @@ int main(int argc, char** argv) {
       delete in; delete g;
     }
     ctx.count("calls", calls);
+    ctx.count("ix-segment.reversed_generic_segment_c0", reversed_unrecognised); ctx.count("ix-segment.reversed_generic_segment_c0_and_segmode_nonzero", reversed_unrecognised_disjoint);
+    if (reversed_unrecognised) ctx.list("documentation-silent", "Segment(A->B, B->A) for generic end points: the two InverseLine solutions agree only to round-off, the library reports c = 0 (not -1) in the counted cases "
+                                         "(ix-segment.reversed_generic_segment_c0; with segmode != 0 in ix-segment.reversed_generic_segment_c0_and_segmode_nonzero); accepted, since bitwise coincidence is not given");
     ctx.count("ix-segment.sphere.crossing", crossing); ctx.count("ix-segment.sphere.disjoint", disjoint); ctx.count("ix-segment.sphere.borderline", borderline);
     ctx.count("ix.scan.cells", st.cells); ctx.count("ix.scan.candidate_cells", st.candidates); ctx.count("ix.scan.roots", st.roots);
     ctx.count("ix.scan.newton_parallel", st.parallel); ctx.count("ix.scan.newton_wandered", st.wandered); ctx.count("ix.scan.newton_unconverged", st.unconverged);
